@@ -34,6 +34,8 @@ def leaf(variant: dict, kernel_name: str | None = None) -> str:
 		f'\tdef __init__(self, value: {t}, count: int = 1) -> None:', '\t\tself.value = value', '\t\tself.count = count', '',
 		f'\tdef bumped(self) -> {t}:', '\t\tn = self.value', f'\t\treturn {step}', '', '',
 		f'def base_val() -> {t}:', f'\treturn {lit}', '', '',
+		# eleven parameters: more than ten attributes on one level of the function's symbol
+		'def wide(' + ', '.join(f'a{i}: int' for i in range(11)) + ') -> str:', "\treturn 'w'", '', '',
 		'def make_item() -> Item:', '\treturn Item(base_val())', '', '',
 	]
 	for i in range(extra):
@@ -43,12 +45,13 @@ def leaf(variant: dict, kernel_name: str | None = None) -> str:
 
 def mid(name_of_leaf: str, variant: dict, tag: str = 'm') -> str:
 	wrap = variant.get('wrap', 'plain')
-	lines = ['from collections.abc import Callable', f'from {name_of_leaf} import Item, Tone, base_val, make_item, SEED', '', '']
+	lines = ['from collections.abc import Callable', f'from {name_of_leaf} import Item, Tone, base_val, make_item, wide, SEED', '', '']
 	# the first definition sits at the same tree position in every mid module: a type-parameterised function in one, a plain one in the others
 	if tag == 'a':
 		lines += [f'def {tag}_first[T](v: T) -> T:', '\treturn v', '', '']
 	else:
 		lines += [f'def {tag}_first(v: int) -> int:', '\treturn v', '', '']
+	lines += [f'def {tag}_wide() -> int:', '\twv = wide(' + ', '.join(str(i) for i in range(11)) + ')', '\twvs = [wv]', '\treturn len(wvs)', '', '']
 	lines += [f'def {tag}_seed() -> int:', '\tseed = SEED', '\tseeds = [SEED, seed]', '\treturn len(seeds)', '', '']
 	# the only dict type of the project (a user template may request an include for it): root has none
 	lines += [f'def {tag}_table() -> int:', "\ttable: dict[str, int] = {'k': 1}", '\treturn len(table)', '', '']
@@ -70,13 +73,15 @@ def mid(name_of_leaf: str, variant: dict, tag: str = 'm') -> str:
 	return '\n'.join(lines).rstrip('\n') + '\n'
 
 
-def root(mids: list[tuple[str, str]], variant: dict) -> str:
+def root(mids: list[tuple[str, str]], variant: dict, lone_module: str | None = None) -> str:
 	"""mids: [(module name, tag)]"""
-	lines = []
+	lines = [f'from {lone_module} import lone'] if lone_module else []
 	for m, tag in mids:
 		lines.append(f'from {m} import {tag}_val, {tag}_tone, {tag.upper()}Box')
 	lines += ['', '']
 	lines += ['def top() -> int:']
+	if lone_module:
+		lines += ['\tlv = lone(1)', '\tlvs = [lv]']
 	for m, tag in mids:
 		lines += [f'\t{tag}_item = {tag}_val()', f'\t{tag}_v = {tag}_item.value', f'\t{tag}_b = {tag}_item.bumped()', f'\t{tag}_box = {tag.upper()}Box()', f'\t{tag}_seen = {tag}_box.item.value',
 			# uses of the inferred variables: their types come from the symbol table rows of *this* module
@@ -88,10 +93,12 @@ def root(mids: list[tuple[str, str]], variant: dict) -> str:
 
 
 def unrelated(variant: dict) -> str:
+	"""Long module (more than 8 KiB in front of the part an edit changes) with a long name; root imports `lone` from it - before
+	everything else, so that it is loaded before the modules whose names are prefixes of its name."""
 	k = variant.get('k', 3)
-	# more than 8 KiB of text in front of the part an edit changes (sources are hashed and read in blocks)
+	t, lit, step, zero = LEAF_T[variant.get('lt', 'int')]
 	pad = [line for i in range(230) for line in (f'def filler_{i:03d}(a: int) -> int:', f'\treturn a + {i}', '', '')]
-	return '\n'.join(pad + ['def lone(a: int) -> int:', f'\treturn a + {k}', '', '', 'class Solo:', '\tn: int', '', '\tdef __init__(self) -> None:', f'\t\tself.n = {k}', '']) + '\n'
+	return '\n'.join(pad + [f'def lone(a: int) -> {t}:', f'\treturn {lit}', '', '', 'class Solo:', '\tn: int', '', '\tdef __init__(self) -> None:', f'\t\tself.n = {k}', '']) + '\n'
 
 
 class HistProject:
@@ -121,7 +128,7 @@ class HistProject:
 			return []
 		if key in ('m', 'a', 'b'):
 			return ['l']
-		return ['m'] if self.shape == 'chain' else ['a', 'b']
+		return ['u'] + (['m'] if self.shape == 'chain' else ['a', 'b'])
 
 	def closure_of(self, key: str) -> set[str]:
 		out: set[str] = set()
@@ -144,7 +151,7 @@ class HistProject:
 			return unrelated(v)
 		if key == 'r':
 			mids = [(self.names['m'], 'm')] if self.shape == 'chain' else [(self.names['a'], 'a'), (self.names['b'], 'b')]
-			return root(mids, v)
+			return root(mids, v, self.names['u'])
 		return mid(self.names['l'], v, key)
 
 	def sources(self) -> dict[str, str]:
@@ -168,7 +175,10 @@ class HistProject:
 			else:
 				v['extra'] = (v.get('extra', 0) + 1) % 3
 		elif key == 'u':
-			v['k'] = v.get('k', 3) + 1
+			if r.random() < 0.5:
+				v['k'] = v.get('k', 3) + 1
+			else:
+				v['lt'] = r.choice([x for x in LEAF_T if x != v.get('lt', 'int')])
 		elif key == 'r':
 			v['extra'] = (v.get('extra', 0) + 1) % 3
 		else:
